@@ -44,7 +44,11 @@ class TagSpace:
         self.n += 1
         v = z3.Int(name) if self.sort == 'int' else z3.Real(name)
         self.zvars.append(v)
-        if self.flags:
+        if self.flags == 'nan':
+            nan = z3.Bool(name + '_nan')
+            self.zvars += [nan]
+            num = Num(v, nan)
+        elif self.flags:
             nan = z3.Bool(name + '_nan')
             inf = z3.Int(name + '_inf')
             self.cons.append(z3.And(inf >= -1, inf <= 1))
